@@ -34,6 +34,68 @@ class UserError(RuntimeError):
     """An exception raised by the user's evaluator (anything that is not OptimizationAborted)."""
 
 
+class PlanPlugins:
+    """The plug-in manager of a scenario's optimizer context: hands out, through the plug-in interface (get_plugin(...).create(...)),
+    the handler and step objects the scenario has prepared - so that they reach a plan by its public add_handler / add_step and the
+    plan keeps them however it likes."""
+
+    def __init__(self, base=None):
+        self.ready, self.base = {}, base
+
+    def get_plugin(self, plugin_type, method):
+        if plugin_type in ("plan_handler", "plan_step") and method in self.ready:
+            obj = self.ready[method]
+            return types.SimpleNamespace(create=lambda name, plan, **kw: obj)
+        if self.base is not None:
+            return self.base.get_plugin(plugin_type, method)
+        raise KeyError((plugin_type, method))
+
+    def is_supported(self, plugin_type, method):
+        return method in self.ready or (self.base is not None and self.base.is_supported(plugin_type, method))
+
+
+def _plan_globals(plan):
+    f = type(plan).add_handler
+    return getattr(f, "__wrapped__", f).__globals__
+
+
+def _plugins_of(plan):
+    pm = plan.optimizer_context.plugin_manager
+    if not isinstance(pm, PlanPlugins):
+        from roptvc.sym import ContractUnbound
+
+        raise ContractUnbound("the optimizer context of the scenario has no scenario plug-in manager")
+    return pm
+
+
+def add_handler(plan, handler_or_recorder, name=None):
+    """Registers a prepared handler - a ResultHandler object, or a Recorder (wrapped into a ResultHandler of the plan) - on the plan
+    through Plan.add_handler; returns the handler object."""
+    pm = _plugins_of(plan)
+    obj = handler_or_recorder
+    if isinstance(obj, Recorder):
+        base = _plan_globals(plan)["ResultHandler"]
+        rec = obj
+        obj = type("RecordingHandler", (base,), {"handle_event": lambda self, event: rec(event)})(plan)
+    key = name or "prepared-%d" % len(pm.ready)
+    pm.ready[key] = obj
+    plan.add_handler(key)
+    return obj
+
+
+def add_step(plan, step_or_run, name=None):
+    """Registers a prepared step (a PlanStep object, or a plain function to be its run method) through Plan.add_step; returns its id."""
+    pm = _plugins_of(plan)
+    obj = step_or_run
+    if callable(obj) and not hasattr(obj, "run"):
+        base = _plan_globals(plan)["PlanStep"]
+        fn = obj
+        obj = type("PreparedStep", (base,), {"run": lambda self, *a, **kw: fn(*a, **kw)})(plan)
+    key = name or "prepared-%d" % len(pm.ready)
+    pm.ready[key] = obj
+    return plan.add_step(key)
+
+
 class Recorder:
     """A result handler / observer that records what it sees and may raise a user abort at a chosen delivery."""
 
@@ -90,6 +152,9 @@ def build(T, kind, outcomes, n_requests, max_functions, abort_who, abort_at, nes
                     if o_row != "too-few":
                         env.function_results_delivered += 1
             if compute_gradients:
+                if out == "gradient-all-failed":
+                    # the function values are fine; every realization failed in the perturbed evaluations only
+                    real = types.SimpleNamespace(failed_realizations=np.array([True]))
                 res.append(GradientResults(batch_id=None, metadata={}, evaluations=None, realizations=real,
                                            gradients=None if out == "too-few" else types.SimpleNamespace(weighted_objective=np.zeros(1), constraints=None)))
             env.evaluated.append(out)
@@ -117,7 +182,7 @@ def build(T, kind, outcomes, n_requests, max_functions, abort_who, abort_at, nes
     cfg = types.SimpleNamespace(
         variables=types.SimpleNamespace(initial_values=np.zeros(1), mask=None),
         optimizer=types.SimpleNamespace(method="x", max_functions=max_functions, output_dir=None, stdout=None, stderr=None),
-        realizations=types.SimpleNamespace(realization_min_success=0 if "all-failed" in [o for o in outcomes if isinstance(o, str)] else 1),
+        realizations=types.SimpleNamespace(realization_min_success=0 if {"all-failed", "gradient-all-failed"} & {o for o in outcomes if isinstance(o, str)} else 1),
     )
     validate = types.SimpleNamespace(model_validate=lambda config, context=None: cfg)
     stubs = {(MOPT, "EnOptConfig"): validate, (MEVS, "EnOptConfig"): validate, (MOPT, "EnsembleEvaluator"): FakeEvaluator, (MEVS, "EnsembleEvaluator"): FakeEvaluator}
@@ -144,19 +209,20 @@ def build(T, kind, outcomes, n_requests, max_functions, abort_who, abort_at, nes
     log = []
     ctx_cls, plan_cls = get(MC, "OptimizerContext"), get(MP, "Plan")
     step_cls = get(MOPT, "DefaultOptimizerStep") if kind == "optimizer" else get(MEVS, "DefaultEvaluatorStep")
-    octx = ctx_cls(evaluator=lambda *a: None, plugin_manager=FakePluginManager())
+    octx = ctx_cls(evaluator=lambda *a: None, plugin_manager=PlanPlugins(FakePluginManager()))
     for et in EventType:
         octx.add_observer(et, Recorder("observer1", log, abort_at if abort_who == "observer1" else None))
         octx.add_observer(et, Recorder("observer2", log, abort_at if abort_who == "observer2" else None))
     plan = plan_cls(octx)
     h1 = Recorder("handler1", log, abort_at if abort_who == "handler1" else None)
     h2 = Recorder("handler2", log)
-    plan._handlers = {"h1": h1, "h2": h2}
+    add_handler(plan, h1)
+    add_handler(plan, h2)
     step = step_cls(plan)
-    plan._steps = {"step": step}
+    step_id = add_step(plan, step)
     env.restore = restore
     env.cfg = cfg
-    return plan, "step", log, env, step
+    return plan, step_id, log, env, step
 
 
 def restore(env):
@@ -218,7 +284,7 @@ def expected(kind, outcomes, n_requests, max_functions, abort_at, batch=None, ne
         if out == "too-few" or (isinstance(out, (list, tuple)) and "too-few" in out):
             code = "TOO_FEW_REALIZATIONS"
             break
-        if out == "all-failed" and kind == "optimizer":
+        if out in ("all-failed", "gradient-all-failed") and kind == "optimizer":
             # every realization failed although realization_min_success < 1 lets the evaluation through: an algorithm that cannot
             # handle NaN stops with TOO_FEW_REALIZATIONS - after the results have been delivered
             code = "TOO_FEW_REALIZATIONS"
@@ -256,6 +322,11 @@ def cases(tier):
                 yield "optimizer/batch=3/requests=3/ok,ok,%s/max_functions=%s" % (o3, mf), {"kind": "optimizer", "n": 3, "outcomes": ["ok", "ok", o3], "mf": mf, "batch": 3}
         for na in (None, 0, 1, 2):
             yield "optimizer/nested/requests=3/inner-abort-at=%s" % na, {"kind": "optimizer", "n": 3, "outcomes": ["ok", "ok", "ok"], "mf": None, "nested": True, "nested_abort": na}
+    # threshold 0 and an algorithm that cannot take NaN: all realizations failing in the GRADIENT result only (the function values of
+    # that evaluation are fine) ends the run as well - after the results have been delivered
+    for mf in (None, 1):
+        yield "optimizer/requests=1/gradient-all-failed,ok/max_functions=%s" % mf, {"kind": "optimizer", "n": 1, "outcomes": ["gradient-all-failed", "ok"], "mf": mf}
+    yield "optimizer/requests=2/gradient-all-failed,ok/max_functions=None", {"kind": "optimizer", "n": 2, "outcomes": ["gradient-all-failed", "ok"], "mf": None}
     # evaluator step on a batch of vectors: too few realizations for ANY vector must be reported
     for vec in (("ok", "ok"), ("ok", "too-few"), ("too-few", "ok"), ("too-few", "too-few")):
         yield "evaluator/vectors=%s" % ",".join(vec), {"kind": "evaluator", "n": 1, "outcomes": [list(vec), "ok"], "mf": None, "vectors": 2}
@@ -287,6 +358,8 @@ def run_case(T, case, clauses):
     # emitted events: start/finish of the step and of each evaluation; one more choice stands for "never"
     abort_at = T.choose(2 * (case["n"] if kind == "optimizer" else 1) + 3)
     grad = bool(T.choose(2)) if kind == "optimizer" else False
+    if "gradient-all-failed" in [o for o in case["outcomes"] if isinstance(o, str)]:
+        grad = True  # (the first request asks for the gradient too: the outcome concerns the gradient result of that evaluation)
     batch = case.get("batch")
     plan, step_id, log, env, step = build(T, kind, case["outcomes"], case["n"], case["mf"], who, abort_at, with_gradient=grad, batch=batch)
     extra = {}
